@@ -370,10 +370,13 @@ def finish(ctx):
 
 
 def crash_violation(shard, r, seed, tier):
-    idx = None
-    return {"property": ID, "tag": "process-died:rc=%s" % r["rc"], "what": "shard %s died (rc=%s): %s" % (
-        shard, r["rc"], r["log"][-600:].replace("\n", " | ")), "seed": seed, "tier": tier, "shard": shard,
-        "nshards": TIERS[tier]["shards"], "idx": r.get("progress"), "witness": {"log_tail": r["log"][-3000:]}}
+    reps = r.get("sanitizer_reports") or []
+    tag = "process-died:rc=%s" % r["rc"]
+    if reps:
+        tag = "process-died:%s:%s@%s" % (reps[0]["tool"], reps[0]["kind"].split(":")[0][:40], reps[0]["where"] or "?")
+    return {"property": ID, "tag": tag, "what": "shard %s died (rc=%s) during call #%s; sanitizer: %s; log: %s" % (
+        shard, r["rc"], r.get("progress"), reps[:2], r["log"][-400:].replace("\n", " | ")), "seed": seed, "tier": tier, "shard": shard,
+        "nshards": TIERS[tier]["shards"], "idx": r.get("progress"), "witness": {"log_tail": r["log"][-3000:], "sanitizer_reports": reps[:4]}}
 
 
 # ---- launcher side ---------------------------------------------------------------------------------------------------
@@ -407,6 +410,8 @@ def custom_run(env):
                 r["progress"] = int(open(pf).read().strip() or -1)
             except ValueError:
                 r["progress"] = None
+        if r["res"] is None:
+            r["sanitizer_reports"] = sanit.parse_reports(glob.glob(os.path.join(tmp, "asan-sh%d.*" % s)))
         # UBSan / ASan text that went to stderr instead of the log files
         for rep in sanit.parse_reports(r["log"]):
             extra_viol.append({"property": ID, "tag": "%s:%s@%s" % (rep["tool"], rep["kind"].split(":")[0][:60], rep["where"] or "?"),
